@@ -150,7 +150,14 @@ type c17Host struct {
 //   correct-errver   as correct, but answer GET_SUPPORTED_VERSION with ERROR_MESSAGE/M_UnsupportedVersion (a 1.0.1 reader)
 //   config-error     answer GET_READER_CONFIG with a non-success status and no identification
 func c17NewHost(addr, mode string, id c17Identity) (*c17Host, error) {
-	ln, err := net.Listen("tcp4", addr)
+	var ln net.Listener
+	var err error
+	for try := 0; try < 50; try++ {
+		if ln, err = net.Listen("tcp4", addr); err == nil || !strings.HasSuffix(addr, ":0") {
+			break
+		}
+		time.Sleep(100 * time.Millisecond) // ephemeral ports momentarily exhausted
+	}
 	if err != nil {
 		return nil, err
 	}
@@ -178,8 +185,9 @@ func (h *c17Host) acceptLoop() {
 			continue
 		}
 		h.conns = append(h.conns, c)
+		mode, id := h.mode, h.id
 		h.mu.Unlock()
-		go h.serve(c)
+		go h.serve(c, mode, id)
 	}
 }
 
@@ -236,12 +244,20 @@ func c17Stall(c net.Conn) {
 	}
 }
 
-func (h *c17Host) serve(c net.Conn) {
+// setScript changes what later connections get (used by the naming grid: one listener per worker)
+func (h *c17Host) setScript(mode string, id c17Identity) {
+	h.mu.Lock()
+	h.mode, h.id = mode, id
+	h.conns = nil // earlier connections of the naming grid are finished
+	h.mu.Unlock()
+}
+
+func (h *c17Host) serve(c net.Conn, hmode string, hid c17Identity) {
 	hello := c17Frame(1, c17MsgReaderEventNotification, 1,
 		c17TLV(c17ParReaderEventNotificationData,
 			c17TLV(c17ParUTCTimestamp, c17U64(1600000000000000)),
 			c17TLV(c17ParConnectionAttemptEvent, c17U16(0))))
-	switch h.mode {
+	switch hmode {
 	case "silent":
 		c17Stall(c)
 		return
@@ -256,7 +272,7 @@ func (h *c17Host) serve(c net.Conn) {
 		// make sure the claimed length is small, so that the client gets its whole "message"
 		binary.BigEndian.PutUint32(g[2:], 64)
 		c.Write(g)
-		if h.mode == "garbage-close" {
+		if hmode == "garbage-close" {
 			c.Close()
 			return
 		}
@@ -281,7 +297,7 @@ func (h *c17Host) serve(c net.Conn) {
 	if _, err := c.Write(hello); err != nil {
 		return
 	}
-	if h.mode == "stall-neg" {
+	if hmode == "stall-neg" {
 		c17Stall(c)
 		return
 	}
@@ -293,7 +309,7 @@ func (h *c17Host) serve(c net.Conn) {
 		h.note(typ)
 		switch typ {
 		case c17MsgGetSupportedVersion:
-			switch h.mode {
+			switch hmode {
 			case "correct-v11":
 				c.Write(c17Frame(ver, c17MsgGetSupportedVersionResp, id, append([]byte{1, 2}, c17StatusOK()...)))
 			case "correct-errver":
@@ -304,12 +320,12 @@ func (h *c17Host) serve(c net.Conn) {
 		case c17MsgSetProtocolVersion:
 			c.Write(c17Frame(ver, c17MsgSetProtocolVersionResp, id, c17StatusOK()))
 		case c17MsgGetReaderConfig:
-			switch h.mode {
+			switch hmode {
 			case "stall-config":
 				c17Stall(c)
 				return
 			case "stall-payload":
-				f := c17Frame(ver, c17MsgGetReaderConfigResp, id, h.id.configResp())
+				f := c17Frame(ver, c17MsgGetReaderConfigResp, id, hid.configResp())
 				binary.BigEndian.PutUint32(f[2:], uint32(len(f)+40)) // claims 40 bytes that never come
 				c.Write(f)
 				c17Stall(c)
@@ -317,21 +333,21 @@ func (h *c17Host) serve(c net.Conn) {
 			case "config-error":
 				c.Write(c17Frame(ver, c17MsgGetReaderConfigResp, id, c17StatusCode(100))) // M_ParameterError
 			default:
-				c.Write(c17Frame(ver, c17MsgGetReaderConfigResp, id, h.id.configResp()))
+				c.Write(c17Frame(ver, c17MsgGetReaderConfigResp, id, hid.configResp()))
 			}
 		case c17MsgGetReaderCapabilities:
-			if h.mode == "stall-caps" {
+			if hmode == "stall-caps" {
 				c17Stall(c)
 				return
 			}
-			c.Write(c17Frame(ver, c17MsgGetReaderCapabilitiesResp, id, h.id.capsResp()))
+			c.Write(c17Frame(ver, c17MsgGetReaderCapabilitiesResp, id, hid.capsResp()))
 		case c17MsgCloseConnection:
-			if h.mode == "stall-close" {
+			if hmode == "stall-close" {
 				c17Stall(c)
 				return
 			}
 			c.Write(c17Frame(ver, c17MsgCloseConnectionResponse, id, c17StatusOK()))
-			if h.mode == "noclose" {
+			if hmode == "noclose" {
 				c17Stall(c)
 				return
 			}
@@ -368,7 +384,7 @@ func c17Unhex(s string) []byte {
 
 // "name <vendor> <model> <idtype> <ridhex|-> <fwhex|-> <caps:0|1> <ident:0|1> <mode>"
 // answer: "ok name=<hex> v=<n> m=<n> fw=<hex> dd=<hex> pen=<s> model=<s> ddfw=<hex> host=<0|1>" | "err" | "blocked"
-func c17Name(f []string) string {
+func c17Name(f []string, h *c17Host) string {
 	v, _ := strconv.ParseUint(f[1], 10, 32)
 	m, _ := strconv.ParseUint(f[2], 10, 32)
 	it, _ := strconv.ParseUint(f[3], 10, 8)
@@ -378,11 +394,7 @@ func c17Name(f []string) string {
 	if len(f) > 8 {
 		mode = f[8]
 	}
-	h, err := c17NewHost("127.0.0.1:0", mode, id)
-	if err != nil {
-		return "harness-error listen " + err.Error()
-	}
-	defer h.Close()
+	h.setScript(mode, id)
 	type res struct {
 		info *discoveryInfo
 		err  error
@@ -732,8 +744,16 @@ func TestVerifC17(t *testing.T) {
 		nwg.Add(1)
 		go func() {
 			defer nwg.Done()
+			h, err := c17NewHost("127.0.0.1:0", "correct", c17Identity{})
 			for j := range jobs {
-				answers[j.i] = c17Name(j.f)
+				if err != nil {
+					answers[j.i] = "harness-error listen " + err.Error()
+					continue
+				}
+				answers[j.i] = c17Name(j.f, h)
+			}
+			if h != nil {
+				h.Close()
 			}
 		}()
 	}
